@@ -181,7 +181,18 @@ func (te *tableEngine) CreateTable(tableSetting TableSetting) (*Table, error) {
 		Timeout: 2,
 		OnOpenGameReady: func(state open_game_manager.OpenGameState) {
 			// 小於等於一個人，不開局
-			if len(state.Participants) <= 1 {
+			// (count the players who can be dealt in, not the players who were asked
+			// to confirm the settlement: after a hand that leaves one survivor the
+			// gate names a single participant although other seated-in players with
+			// chips - newcomers, players who were waiting for the big blind - are
+			// ready to play)
+			playablePlayers := 0
+			for _, player := range te.table.State.PlayerStates {
+				if player.IsIn && player.Bankroll > 0 {
+					playablePlayers++
+				}
+			}
+			if playablePlayers <= 1 {
 				return
 			}
 
